@@ -284,9 +284,18 @@ func verifPipeline(raw []byte) interface{} {
 	res.MirroredMsgs = mirrored()
 	res.Mirrored = len(res.MirroredMsgs)
 	// the receive loop reads into whatever the pool hands out: every buffer in it must have the full size
+	seen := map[*byte]bool{}
 	for n := 0; n < 4*len(c.Dgrams)+64 && pool != nil; n++ {
-		if b := pool.Get().([]byte); len(b) != c.UDPSize {
+		b := pool.Get().([]byte)
+		if len(b) != c.UDPSize {
 			res.ShortBuffers++
+		}
+		if cap(b) > 0 {
+			p := &b[:1][0]
+			if seen[p] {
+				res.DuplicateBuffers++
+			}
+			seen[p] = true
 		}
 	}
 	return res
